@@ -128,6 +128,15 @@ CHECKS = {
         note='Trusted: z3; pickle = deep copy and open() = in-memory file (stubs); scipy.sparse contract (entries != 0 are stored). '
              'Known finding: ids equal to the reserved keys line_characters / logit_coords.',
         design='4/C09'),
+    'C04': dict(
+        text='Bounded symbolic execution of the real greedy_decode_ctc (3-D branch, through a minimal torch shim over the array '
+             'facade), GreedyDecoder.__call__ and greedy_filtration on one score tensor N x C x T of symbolic reals with a unique '
+             'maximum per frame: for every arg-max pattern (decided by the solver) all three outputs equal the CTC collapse of the '
+             'arg-max path, for every line of the batch.  Bound: N = 1, T <= 3 and N = 2, T <= 2 with C = 3 (quick); N = 1, T <= 4, '
+             'C <= 4; N = 2, T <= 3; N = 3, T = 2 (thorough).',
+        note='Trusted: z3 (linear real arithmetic), the torch shim (cat / argmax / slicing / masks; witness replay on real torch), '
+             'unique maxima (ties are outside: torch and numpy need not agree on them).',
+        design='4/C04'),
 }
 
 NOT_APPLICABLE = {
